@@ -124,6 +124,9 @@ class ReusableTraits<T, typename ::std::enable_if<::std::is_base_of<
       const AllocationMetadata& meta) noexcept {
     allocator.construct(ptr);
     meta.reserve(*ptr);
+    // reserve() walks into singular sub messages through Reflection::MutableMessage, which marks
+    // them present; hand back a logically empty message (Clear keeps every reserved capacity)
+    ptr->Clear();
   }
 
   static void reconstruct_instance(T& message, SwissAllocator<>) {
@@ -169,6 +172,7 @@ class ReusableTraits<::google::protobuf::Message>
     auto instance = metadata.default_instance->New(
         &static_cast<Arena&>(*allocator.resource()));
     metadata.metadata.reserve(*instance);
+    instance->Clear();
     return instance;
   }
 
